@@ -1,7 +1,7 @@
 (* C07 — every model the oracle can reach through the registry satisfies the round-trip law. *)
 From JT.Base Require Import Prelude PreludeP Fmt.
-From JT.Model Require Import Msg_simple Msg_text Params Msg_all.
-From JT.Proofs Require Import Msg_simple_proofs Msg_text_proofs Msg_params_proofs.
+From JT.Model Require Import Msg_simple Msg_text Params Msg_location Msg_all.
+From JT.Proofs Require Import Msg_simple_proofs Msg_text_proofs Msg_params_proofs Msg_location_proofs.
 
 Lemma assoc_in_msg k (t : list (N * msg)) m : assoc k t = Some m -> In (k, m) t.
 Proof.
@@ -29,6 +29,7 @@ Lemma msg_all_ok u2g g2u gdom : codec_ok u2g g2u gdom ->
 Proof.
   intros Hc id ver d m. unfold msg_all, msg_text.
   destruct (id =? 33027); [intros H; inversion H; subst; now apply m_8103_ok|].
+  destruct (msg_location id) as [ml|] eqn:EL; [intros H; inversion H; subst; now apply (msg_location_ok id)|].
   destruct (id =? 256); [intros H; inversion H; subst; now apply m_0100_ok|].
   apply msg_simple_ok.
 Qed.
